@@ -12,6 +12,7 @@ from .c03 import simple_class_name
 
 LEVEL = 'model_checking'
 FRESH_PROCESS_PER_UNIT = True
+REPLAY_ONE_PER_PROCESS = True
 
 
 class EmptyLex:
@@ -54,11 +55,14 @@ def units(tier):
     precompute()
     ts = ['T:' + t for t in sorted(lib.MODEL['simple']) if t not in ('xs:normalizedString', 'xs:anyURI')]
     es = ['E:' + e for e in sorted(lib.MODEL['elements'])]
-    return ts + es
+    # every target twice, each in its own fresh process: as the first type used ("cold") and after every other
+    # simple type has been used ("warm"): validation must not depend on what the process did before
+    return [u + '@cold' for u in ts + es] + [u + '@warm' for u in ts + es]
 
 
 def target(unit):
     """-> (concrete constructor, Lex, note)"""
+    unit = unit.split('@')[0]
     kind, name = unit.split(':', 1)
     if kind == 'T':
         import musicxml.xsd.xsdsimpletype as ST
@@ -200,12 +204,12 @@ def analyse(unit, tier, state_label):
     return stats, cands, samples, sig
 
 
-def warm_up():
-    """instantiate every simple type once with a valid value (process-wide lazily filled tables)"""
+def warm_up(exclude=None):
+    """instantiate every simple type (but the target) once with a valid value (process-wide lazily filled tables)"""
     import musicxml.xsd.xsdsimpletype as ST
     for tn in sorted(lib.MODEL['simple']):
         cls = getattr(ST, simple_class_name(tn), None)
-        if cls is None:
+        if cls is None or tn == exclude:
             continue
         try:
             cls(_WARM[tn] if tn in _WARM else lex.Lex(refmodel.resolve_simple(lib.MODEL, tn)).sample_value())
@@ -213,39 +217,37 @@ def warm_up():
             pass
 
 
+def _own_type(unit):
+    kind, name = unit.split('@')[0].split(':', 1)
+    if kind == 'T':
+        return name
+    tn, c, st = lib.type_of(name)
+    return (c['simple_base'] if c else tn)
+
+
 def run_unit(unit, tier, seed):
     lang.STATS.clear()
-    stats, cands, samples, sig_cold = analyse(unit, tier, 'cold')
-    warm_up()
-    stats2, cands2, samples2, sig_warm = analyse(unit, tier, 'warm')
-    for k, v in stats2.items():
-        stats[k] += v
-    keys = {(c['kind'], json.dumps(c['witness'], sort_keys=True)) for c in cands}
-    for c in cands2:
-        if (c['kind'], json.dumps(c['witness'], sort_keys=True)) not in keys:
-            c = dict(c, witness=dict(c['witness'], state='after every other simple type was used'))
-            cands.append(c)
-    if collections.Counter(sig_cold) != collections.Counter(sig_warm):
-        cands.append(dict(cls=unit, kind='validation-depends-on-process-history', witness=dict(),
-                          detail='path verdicts differ between a fresh process and one in which every simple type had been used'))
+    state = unit.split('@')[1]
+    if state == 'warm':
+        warm_up(exclude=_own_type(unit))
+    stats, cands, samples, sig = analyse(unit.split('@')[0], tier, state)
+    for c in cands:
+        c['cls'] = unit.split('@')[0]
+        if state == 'warm':
+            c['witness'] = dict(c['witness'], state='after every other simple type was used')
     own = [c for c in cands if c.get('prop') != 'C19']
     return dict(stats=stats, cands=own, c19=[c for c in cands if c.get('prop') == 'C19'], samples=samples,
                 nontrivial=int(stats['paths']), evaluations=int(stats['paths']),
                 funcs=['xsd/xsdsimpletype.py:XSDSimpleType.__init__', 'xsd/xsdsimpletype.py:XSDSimpleType._check_value',
                        'xsd/xsdsimpletype.py:XSDSimpleType._check_value_type', 'xsd/xsdcomplextype.py:XSDComplexType._check_value',
-                       'xmlelement/xmlelement.py:XMLElement.value_'],
+                       'xmlelement/xmlelement.py:XMLElement.value_', 'xmlelement/xmlelement.py:XMLElement._create_et_xml_element'],
                 bounds=dict(string_maxlen=values.MAXLEN[tier]))
 
 
 def replay(c):
     ctor, L, _ = target(c['cls'])
     if c['witness'].get('state'):
-        warm_up()
-    if c['kind'] == 'validation-depends-on-process-history':
-        _, _, _, a = analyse(c['cls'], 'quick', 'cold')
-        warm_up()
-        _, _, _, b = analyse(c['cls'], 'quick', 'warm')
-        return collections.Counter(a) != collections.Counter(b), 'verdict signatures compared'
+        warm_up(exclude=_own_type(c['cls']))
     v = decode(c['witness']['value'])
     ok, text = concrete(ctor, v)
     if c['kind'].startswith('accepts-invalid'):
